@@ -102,6 +102,23 @@ impl<I: Ord + Copy, const N: usize> BTreeSet<[I; N]> {
         true
     }
 
+    pub fn is_empty(&self) -> bool {
+        self.len == 0
+    }
+
+    pub fn clear(&mut self) {
+        self.items = [None; CAP];
+        self.len = 0;
+    }
+
+    pub fn first(&self) -> Option<&[I; N]> {
+        if self.len == 0 { None } else { self.items[0].as_ref() }
+    }
+
+    pub fn last(&self) -> Option<&[I; N]> {
+        if self.len == 0 || self.len > CAP { None } else { self.items[self.len - 1].as_ref() }
+    }
+
     pub fn iter(&self) -> Iter<'_, [I; N]> {
         Iter { items: &self.items, pos: 0, end: self.len }
     }
@@ -165,3 +182,25 @@ impl<'a, T> Iterator for Iter<'a, T> {
 }
 
 pub type Range<'a, T> = Iter<'a, T>;
+
+impl<I: Ord + Copy, const N: usize> Extend<[I; N]> for BTreeSet<[I; N]> {
+    fn extend<It: IntoIterator<Item = [I; N]>>(&mut self, iter: It) {
+        for x in iter {
+            self.insert(x);
+        }
+    }
+}
+impl<I: Ord + Copy, const N: usize> FromIterator<[I; N]> for BTreeSet<[I; N]> {
+    fn from_iter<It: IntoIterator<Item = [I; N]>>(iter: It) -> Self {
+        let mut s = BTreeSet::new();
+        s.extend(iter);
+        s
+    }
+}
+impl<'a, I: Ord + Copy, const N: usize> IntoIterator for &'a BTreeSet<[I; N]> {
+    type Item = &'a [I; N];
+    type IntoIter = Iter<'a, [I; N]>;
+    fn into_iter(self) -> Self::IntoIter {
+        self.iter()
+    }
+}
